@@ -94,5 +94,16 @@ def fill(chk, not_yet):
         "scipy.stats as installed; 1e-10 floor treated as a numerical guard.",
         "runtime monitoring: draw recorder (parameter proxies with scripted returns) + call-site monitor in real runs",
         "DESIGN.md 4/C13")
+    chk("C14", "exploration",
+        "Every call of the five memoised entry points (children recursion, pairwise convolution, semi-/fully-adapted "
+        "proposal caches, cached new-clone tree) during instrumented chain runs with concentration updates and the run "
+        "loop's clearing, and synthetic key-scheme histories (all child orders, duplicates, one-ulp neighbours, "
+        "alternating alpha with/without clearing, equal parents via different objects), is shadowed by the wrapped "
+        "original on the same arguments at that moment; cached values re-digested on later hits. Minimum hit counts per "
+        "cache or the run is inconclusive.",
+        "one grid shape per process (the property's quantifier); arrays compared above 1e-60 of the row peak at 1e-9 "
+        "relative; proposal objects compared by support / log-probabilities / sampling vector.",
+        "runtime monitoring: shadow execution of memoised functions against their unmemoised originals",
+        "DESIGN.md 4/C14")
     for pid in ["C02","C03","C05","C06","C07","C08","C09","C10","C11","C12","C13","C14","C15","C16","C17","C18","C19","C20"]:
         not_yet[pid] = "check under construction in this session (runtime monitor designed in DESIGN.md section 4); not claimed until it runs clean"
